@@ -24,8 +24,11 @@ import (
 
 // C14: every standard-library binding denotes the symbol it is named after.
 //   cases = the rows of the binding files themselves (the space is finite and checked completely):
-//           quick = both releases of stdlib/ for the host platform + syscall/unsafe/unrestricted for the host,
-//           thorough = additionally the syscall tables of every other platform.
+//           quick = both releases of stdlib/ for the host platform + syscall/unsafe/unrestricted for the host
+//                   + the syscall/unrestricted tables of every other platform for the release the installed
+//                   toolchain compiles (go/types truth per GOOS/GOARCH; decided by the theorems of
+//                   coq/Bind/ShardX*.v over coq/gen/BindX_*_gen.v and by the text reference here),
+//           thorough = additionally the syscall tables of the other release for every other platform.
 //   impl  = the compiled tables stdlib.Symbols, syscall.Symbols, unsafe.Symbols, unrestricted.Symbols observed
 //           at run time (function linker names, addressability, types, exact constants, wrapper forwarding
 //           exercised with reflect.MakeFunc stubs), and the source text of the rows
@@ -37,6 +40,11 @@ func init() {
 }
 
 const c14FloatRegion = "float-const-inexact"
+
+// untyped RUNE constants (utf8.RuneError, unicode.MaxRune, ...) are bound as untyped INTEGER literals
+// (extract.fixConst switches on go/constant's Kind, which knows no rune): the value is exact, the
+// default type is int instead of rune
+const c14RuneRegion = "untyped-rune-const"
 
 func c14Repo() string {
 	if r := os.Getenv("VERIF_REPO"); r != "" {
@@ -434,6 +442,9 @@ func c14Region(t *truthObj) string {
 	if t != nil && t.Kind == "ufloat" && !c14IsPow2(t.Den) {
 		return c14FloatRegion
 	}
+	if t != nil && t.Kind == "urune" {
+		return c14RuneRegion
+	}
 	return ""
 }
 
@@ -469,14 +480,17 @@ func c14TextRef(col *bindCollection, g *bindGroup, f *bindFile, r *bindRow) (ok 
 	case "builtin":
 		lower := strings.ToLower(t.Name[:1]) + t.Name[1:]
 		return r.Form == "funclit" || (r.Form == "ident" && r.Ident == lower && c14In(lower, f.Locals)), "a local stand-in for the builtin"
-	case "uint", "ufloat", "ustring":
+	case "uint", "urune", "ufloat", "ustring":
 		c := t.obj.(*types.Const).Val()
 		want = "a literal of value " + c.ExactString()
 		if r.Form != "lit" {
 			return false, want
 		}
 		tok := map[string]token.Token{"INT": token.INT, "FLOAT": token.FLOAT, "STRING": token.STRING, "CHAR": token.CHAR, "IMAG": token.IMAG}[r.Tok]
-		okTok := (t.Kind == "uint" && (tok == token.INT || tok == token.CHAR)) || (t.Kind == "ufloat" && tok == token.FLOAT) || (t.Kind == "ustring" && tok == token.STRING)
+		if t.Kind == "urune" {
+			want = "a CHAR literal (untyped rune constant, default type rune) of value " + c.ExactString()
+		}
+		okTok := (t.Kind == "uint" && (tok == token.INT || tok == token.CHAR)) || (t.Kind == "urune" && tok == token.CHAR) || (t.Kind == "ufloat" && tok == token.FLOAT) || (t.Kind == "ustring" && tok == token.STRING)
 		b := constant.MakeFromLiteral(r.Lit, tok, 0)
 		return okTok && b.Kind() != constant.Unknown && constant.Compare(b, token.EQL, c), want
 	}
@@ -579,7 +593,7 @@ func c14RuntimeRef(col *bindCollection, g *bindGroup, f *bindFile, r *bindRow, v
 		if got.Kind() == constant.Unknown || !constant.Compare(got, token.EQL, want) {
 			return "value " + got.ExactString() + " differs from " + want.ExactString()
 		}
-	case "uint", "ufloat", "ustring":
+	case "uint", "urune", "ufloat", "ustring":
 		if !v.CanInterface() {
 			return "not a constant"
 		}
@@ -745,6 +759,9 @@ func runC14(args []string) error {
 	nObserved := 0
 	seenEntries := map[string]bool{} // table dir + key + name seen through a row
 	for _, g := range col.Groups {
+		if g.SiblingOnly {
+			continue // quick tier: read for the drift rule only
+		}
 		all := len(g.Files) > 0
 		for _, f := range g.Files {
 			if c14Table(f.Path) == nil || !compiled(f.Path) {
@@ -860,36 +877,12 @@ func runC14(args []string) error {
 		}
 		// ---- completeness, against the truth of the release
 		if g.Complete {
-			have := map[string]bool{}
-			haveW := map[string]bool{}
-			for _, f := range g.Files {
-				for _, r := range f.Rows {
-					have[r.Key+"\x00"+r.Name] = true
-				}
-				for _, w := range f.Wrappers {
-					haveW[w.Name] = true
-				}
-			}
 			for _, tp := range g.Truth {
 				for _, t := range tp.Objs {
 					sm.Evaluations++
 					sm.RefComparisons++
 					sm.CaseIndex[fmt.Sprint(t.ID)] = map[string]any{"package": tp.Path, "object": t.Name, "kind": t.Kind, "since": t.Since, "group": g.Name}
-					switch t.Kind {
-					case "genfunc", "gentype", "constraint", "builtin", "other":
-						continue
-					}
-					if t.Since > g.Release {
-						continue
-					}
-					key := tp.Path + "/" + tp.Name
-					missing := ""
-					if !have[key+"\x00"+t.Name] {
-						missing = "no entry " + t.Name
-					} else if t.Kind == "iface" && (!have[key+"\x00_"+t.Name] || !haveW[extractPrefix(tp.Path)+t.Name]) {
-						missing = "no wrapper entry _" + t.Name
-					}
-					if missing != "" {
+					if missing := bindMissing(g, tp, t); missing != "" {
 						pending[t.ID] = pendingInfo{g: g, tp: tp, t: t}
 						sm.RefMismatches = append(sm.RefMismatches, refMismatch{ID: t.ID, Region: "", Input: sm.CaseIndex[fmt.Sprint(t.ID)], Impl: missing,
 							Ref: fmt.Sprintf("%s.%s (%s) is declared by go1.%d for %s/%s", tp.Path, t.Name, t.Kind, g.Release, g.GOOS, g.GOARCH)})
@@ -924,20 +917,6 @@ func runC14(args []string) error {
 	// the sibling release shows identically (same bound text / also no entry) is therefore not decidable
 	// offline: it is excused, listed in the evidence, and never reported.  Any change to one
 	// of the two files breaks the agreement and is reported.
-	sibling := map[string]*bindGroup{}
-	for _, g := range col.Groups {
-		sibling[fmt.Sprintf("%s/%s/%d", g.GOOS, g.GOARCH, g.Release)] = g
-	}
-	rowOf := func(g *bindGroup, key, name string) *bindRow {
-		for _, f := range g.Files {
-			for _, r := range f.Rows {
-				if r.Key == key && r.Name == name {
-					return r
-				}
-			}
-		}
-		return nil
-	}
 	// release drift that the sibling rule cannot see, because the change happened between the two
 	// releases yaegi ships tables for (the go1.22 table agrees with the installed source):
 	// Go 1.22 rewrote the fake network layer of js/wasm and wasip1/wasm (syscall/net_fake.go):
@@ -954,19 +933,21 @@ func runC14(args []string) error {
 		p, ok := pending[m.ID]
 		ex := false
 		if ok && !(p.g.GOOS == runtime.GOOS && p.g.GOARCH == runtime.GOARCH) && strings.HasPrefix(p.g.Name, "syscall/") {
-			other := 21
-			if p.g.Release == 21 {
-				other = 22
-			}
-			if sib := sibling[fmt.Sprintf("%s/%s/%d", p.g.GOOS, p.g.GOARCH, other)]; sib != nil {
+			if sib := col.sibling(p.g); sib != nil {
 				if p.r != nil {
-					sr := rowOf(sib, p.r.Key, p.r.Name)
-					ex = sr != nil && sr.Text == p.r.Text
-					if want, ok := knownDrift[fmt.Sprintf("%s/%s/%d/%s", p.g.GOOS, p.g.GOARCH, p.g.Release, p.r.Name)]; ok && p.r.Text == want && p.r.Key == "syscall/syscall" {
-						ex = true
+					// a differing entry: excused only in a table of a release the toolchain does not compile
+					// (the tables of the compiled release are decided row by row, also by the Coq theorems)
+					if p.g.Release != col.CompiledRelease {
+						sr := sib.rowOf(p.r.Key, p.r.Name)
+						ex = sr != nil && sr.Text == p.r.Text
+						if want, ok := knownDrift[fmt.Sprintf("%s/%s/%d/%s", p.g.GOOS, p.g.GOARCH, p.g.Release, p.r.Name)]; ok && p.r.Text == want && p.r.Key == "syscall/syscall" {
+							ex = true
+						}
 					}
 				} else if p.t != nil {
-					ex = rowOf(sib, p.tp.Path+"/"+p.tp.Name, p.t.Name) == nil
+					// a missing entry: the api lists are silent about the platform and the sibling lacks it too
+					// (the same rule gives coq/gen/BindXDrift_gen.v, see bindCollection.drift)
+					ex = p.t.API == nil && sib.rowOf(p.tp.Path+"/"+p.tp.Name, p.t.Name) == nil
 				}
 			}
 		}
@@ -1034,7 +1015,9 @@ func runC14(args []string) error {
 	// thorough: the remaining groups travel inside the cases files
 	var extra []*bindGroup
 	for _, g := range col.Groups {
-		if !g.Quick {
+		// quick tier: the cross-platform groups are decided by the theorems of Bind/ShardX*.v over
+		// coq/gen/BindX_*_gen.v (same rows, same ids) and by the text reference above
+		if !g.Quick && *tier == "thorough" {
 			extra = append(extra, g)
 		}
 	}
@@ -1059,7 +1042,14 @@ func runC14(args []string) error {
 		sm.Samples = append(sm.Samples, map[string]any{"file": fmt.Sprintf("%s:%d", rr.r.File, rr.r.Line), "table": rr.r.Key, "name": rr.r.Name, "bound": rr.r.Text, "object-kind": kind})
 	}
 	nGroups, nTruth, nWrap := 0, 0, 0
+	nX := 0
 	for _, g := range col.Groups {
+		if g.SiblingOnly {
+			continue
+		}
+		if g.XPlat {
+			nX++
+		}
 		nGroups++
 		for _, tp := range g.Truth {
 			nTruth += len(tp.Objs)
@@ -1069,6 +1059,7 @@ func runC14(args []string) error {
 		}
 	}
 	sm.Distribution["groups"] = nGroups
+	sm.Distribution["groups-cross-platform"] = nX
 	sm.Distribution["rows"] = len(allRows)
 	sm.Distribution["rows-observed-in-compiled-tables"] = nObserved
 	sm.Distribution["truth-objects"] = nTruth
